@@ -184,8 +184,11 @@ func (e *emitter) emit(t *T) {
 // escape spellings, or a block string when the value allows an unambiguous one. Only BMP characters
 // other than U+FFFD / U+FEFF are ever generated (the scanner's handling of the rest is C07's).
 func spellString(v string, r *hx.Rand) string {
-	if r.Chance(1, 4) && blockable(v) {
+	// a value with three quotes in a row is worth a block string most of the time: its block spelling
+	// has the only escape sequence of block strings, \""" (four source characters for three)
+	if blockable(v) && (r.Chance(1, 4) || (strings.Contains(v, `"""`) && r.Chance(2, 3))) {
 		nl := hx.Pick(r, []string{"\n", "\r\n", "\r"})
+		v = strings.ReplaceAll(v, `"""`, `\"""`)
 		if !strings.Contains(v, "\n") && r.Bool() {
 			return `"""` + v + `"""`
 		}
@@ -245,10 +248,12 @@ func spellString(v string, r *hx.Rand) string {
 	return b.String()
 }
 
-// blockable: every line non-empty, without leading/trailing blanks, no quote or backslash, only
-// printable characters — the block string value is then unambiguous.
+// blockable: every line non-empty, without leading/trailing blanks, only printable characters; quotes
+// and backslashes are allowed where the block spelling stays unambiguous: `"""` inside the value is
+// spelled \""" (spellString), the value does not end in a quote or a backslash (it would fuse with the
+// closing delimiter) and has no backslash directly before three quotes.
 func blockable(v string) bool {
-	if v == "" {
+	if v == "" || strings.HasSuffix(v, `"`) || strings.HasSuffix(v, `\`) || strings.Contains(v, `\"""`) {
 		return false
 	}
 	for _, line := range strings.Split(v, "\n") {
@@ -256,7 +261,7 @@ func blockable(v string) bool {
 			return false
 		}
 		for _, c := range line {
-			if c == '"' || c == '\\' || c < 0x20 {
+			if c < 0x20 {
 				return false
 			}
 		}
@@ -540,7 +545,9 @@ var rich = profile{
 	enums:      []string{"E", "RED", "on", "fragment", "query", "mutation", "subscription", "_e", "True", "NULL", "nul", "truee"},
 	ints:       []string{"0", "-0", "7", "-1", "42", "1234567890123456789012", "-90"},
 	floats:     []string{"1.5", "-0.0", "1e10", "1E+5", "1.25e-3", "0.000", "-7E-0", "6.02e23"},
-	strs:       []string{"", "s", "hello world", "a\"b", "back\\slash", "line1\nline2", "tab\there", "é☃漢", "/slash/", "\u0000\b\f\r", "#not a comment", "a\nb\nc", "{}[]()$!:=@|...", "  lead", "trail  ", "x\n\ny"},
+	strs: []string{"", "s", "hello world", "a\"b", "back\\slash", "line1\nline2", "tab\there", "é☃漢", "/slash/", "\u0000\b\f\r", "#not a comment", "a\nb\nc", "{}[]()$!:=@|...", "  lead", "trail  ", "x\n\ny",
+		// block-string material: three quotes in a row (spelled \""" in a block string), lone quotes, backslashes
+		"a\"\"\"b", "\"\"\"", "say \"\"\"hi\"\"\" twice", "\"\"\"\"x", "q\"uo\"\"te", "l1 \"\"\"\nl2", "c:\\dir\\n \\u0041"},
 }
 
 type gen struct {
